@@ -485,13 +485,39 @@ Definition logtransform_logpdf (inner : R -> res) (c x : R) : res :=
   | _ => NoSuch        (* inner called at a non-finite point: outside this model *)
   end.
 
+(* --------------------------------------------------------------------- Pdf *)
+(* every Pdf method of the package is `if err := dist.LogPdf(r, x); err != nil { return err }; r.Exp(r); return nil`
+   (the shape is re-read from the source on every run: harness/c14 inventory, CorrS.v); the scalar normal offers none *)
+Definition exp_pdfm d x := rmap eexp (exp_logpdf d x).
+Definition lap_pdfm d x := rmap eexp (lap_logpdf d x).
+Definition par_pdfm d x := rmap eexp (par_logpdf d x).
+Definition gp_pdfm d x := rmap eexp (gp_logpdf d x).
+Definition gev_pdfm d x := rmap eexp (gev_logpdf d x).
+Definition gam_pdfm d x := rmap eexp (gam_logpdf d x).
+Definition beta_pdfm d x := rmap eexp (beta_logpdf d x).
+Definition bin_pdfm d x := rmap eexp (bin_logpdf d x).
+Definition cat_pdfm d x := rmap eexp (cat_logpdf d x).
+Definition cau_pdfm d x := rmap eexp (cau_logpdf d x).
+Definition chi_pdfm d x := rmap eexp (chi_logpdf d x).
+Definition delta_pdfm X x := rmap eexp (delta_logpdf X x).
+Definition gg_pdfm d x := rmap eexp (gg_logpdf d x).
+Definition geo_pdfm d x := rmap eexp (geo_logpdf d x).
+Definition nb_pdfm d x := rmap eexp (nb_logpdf d x).
+Definition poi_pdfm l x := rmap eexp (poi_logpdf l x).
+Definition pl_pdfm d x := rmap eexp (pl_logpdf d x).
+(* the vector / matrix families (t, normal, skew normal, inverse Wishart, normal-inverse-Wishart): the same shape *)
+Definition pdf_of (r : res) : res := rmap eexp r.
+Definition translation_pdfm (inner : R -> res) (c x : R) : res := rmap eexp (translation_logpdf inner c x).
+Definition logtransform_pdfm (inner : R -> res) (c x : R) : res := rmap eexp (logtransform_logpdf inner c x).
+
 (* -------------------------------------------------------------- dispatcher *)
 Inductive fam := FNormal | FExponential | FLaplace | FPareto | FGPareto | FGev | FGamma | FBeta
   | FBinomial | FCategorical | FCauchy | FChiSquared | FDelta | FGenGamma | FGeometric
   | FNegBinomial | FPoisson | FPowerLaw
   | FTransNormal      (* PdfTranslation(normal) *)
   | FLogTransNormal.  (* PdfLogTransform(normal) *)
-Inductive fn := LogPdf | LogCdf | Cdf | Ctor.  (* Ctor: only the constructor is run *)
+Inductive fn := LogPdf | LogCdf | Cdf | Ctor   (* Ctor: only the constructor is run *)
+  | Pdf.   (* the Pdf method: `if err := LogPdf(r, x); err != nil { return err }; r.Exp(r)` (round 6) *)
 
 Definition P (ps : list R) (k : nat) : R := nth k ps 0.
 Definition with_d {D} (o : option D) (k : D -> res) : res := match o with Some d => k d | None => CtorErr end.
@@ -544,6 +570,27 @@ Definition eval (f : fam) (g : fn) (ps : list R) (zs : list Z) (x : R) : res :=
       with_d (normal_new (P ps 0) (P ps 1)) (fun d => translation_logpdf (normal_logpdf d) (P ps 2) x)
   | FLogTransNormal, LogPdf =>
       with_d (normal_new (P ps 0) (P ps 1)) (fun d => logtransform_logpdf (normal_logpdf d) (P ps 2) x)
+  | FExponential, Pdf => with_d (exp_new (P ps 0)) (fun d => exp_pdfm d x)
+  | FLaplace, Pdf => with_d (lap_new (P ps 0) (P ps 1)) (fun d => lap_pdfm d x)
+  | FPareto, Pdf => with_d (par_new (P ps 0) (P ps 1)) (fun d => par_pdfm d x)
+  | FGPareto, Pdf => with_d (gp_new (P ps 0) (P ps 1) (P ps 2)) (fun d => gp_pdfm d x)
+  | FGev, Pdf => with_d (gev_new (P ps 0) (P ps 1) (P ps 2)) (fun d => gev_pdfm d x)
+  | FGamma, Pdf => with_d (gam_new (P ps 0) (P ps 1)) (fun d => gam_pdfm d x)
+  | FBeta, Pdf => with_d (beta_new (P ps 0) (P ps 1) (Z.eqb (nth 0 zs 0%Z) 1)) (fun d => beta_pdfm d x)
+  | FBinomial, Pdf => with_d (bin_new (P ps 0) (nth 0 zs 0%Z)) (fun d => bin_pdfm d x)
+  | FCategorical, Pdf => with_d (cat_new ps) (fun d => cat_pdfm d x)
+  | FCauchy, Pdf => with_d (cau_new (P ps 0) (P ps 1)) (fun d => cau_pdfm d x)
+  | FChiSquared, Pdf => with_d (chi_new (P ps 0)) (fun d => chi_pdfm d x)
+  | FDelta, Pdf => delta_pdfm (P ps 0) x
+  | FGenGamma, Pdf => with_d (gg_new (P ps 0) (P ps 1) (P ps 2)) (fun d => gg_pdfm d x)
+  | FGeometric, Pdf => with_d (geo_new (P ps 0)) (fun d => geo_pdfm d x)
+  | FNegBinomial, Pdf => with_d (nb_new (P ps 0) (P ps 1)) (fun d => nb_pdfm d x)
+  | FPoisson, Pdf => with_d (poi_new (P ps 0)) (fun d => poi_pdfm d x)
+  | FPowerLaw, Pdf => with_d (pl_new (P ps 0) (P ps 1)) (fun d => pl_pdfm d x)
+  | FTransNormal, Pdf =>
+      with_d (normal_new (P ps 0) (P ps 1)) (fun d => translation_pdfm (normal_logpdf d) (P ps 2) x)
+  | FLogTransNormal, Pdf =>
+      with_d (normal_new (P ps 0) (P ps 1)) (fun d => logtransform_pdfm (normal_logpdf d) (P ps 2) x)
   | FNormal, Ctor | FTransNormal, Ctor | FLogTransNormal, Ctor => with_d (normal_new (P ps 0) (P ps 1)) (fun _ => Val (F 0))
   | FExponential, Ctor => with_d (exp_new (P ps 0)) (fun _ => Val (F 0))
   | FLaplace, Ctor => with_d (lap_new (P ps 0) (P ps 1)) (fun _ => Val (F 0))
